@@ -119,3 +119,92 @@ EXTRA = [
 def source(name, body):
     lines = [f"def {name}(c1, c2, c3):"] + ["    " + s for s in PRELUDE] + render(body) + ["    out(x, y, o.f, o.g, q.f)", "    return x"]
     return "\n".join(lines) + "\n"
+
+
+# ----------------------------------------------------------------------------------------------------
+# reference for C09: flow-sensitive, path-merging, NON-relational collecting semantics (sets per variable / field)
+
+def abstract_expected(name, body):
+    """-> {(line number in source(name, body), var): set of ints} for every definition of x / y in the entry."""
+    import ast
+    src = source(name, body)
+    tree = ast.parse(src)
+    fn = tree.body[0]
+    expected = {}
+
+    def join(a, b):
+        out = {}
+        for k in set(a) | set(b):
+            out[k] = set(a.get(k, set())) | set(b.get(k, set()))
+        return out
+
+    def ev(node, env):
+        """set of abstract values: ints or ('obj', site) markers; fields live in env under (site, field)"""
+        if isinstance(node, ast.Constant):
+            return {node.value}
+        if isinstance(node, ast.Name):
+            return set(env.get(node.id, set()))
+        if isinstance(node, ast.BinOp):
+            l, r = ev(node.left, env), ev(node.right, env)
+            f = {ast.Add: lambda a, b: a + b, ast.Sub: lambda a, b: a - b, ast.Mult: lambda a, b: a * b}[type(node.op)]
+            return {f(a, b) for a in l for b in r if isinstance(a, int) and isinstance(b, int)}
+        if isinstance(node, ast.Attribute):
+            base = ev(node.value, env)
+            out = set()
+            for o in base:
+                out |= set(env.get((o, node.attr), set()))
+            return out
+        if isinstance(node, ast.Call):
+            fname = node.func.id
+            args = [ev(a, env) for a in node.args]
+            if fname == "Obj":
+                return {("obj", node.lineno, node.col_offset)}
+            if fname == "pick":
+                return args[0]
+            if fname == "second":
+                return args[1]
+            if fname == "add1":
+                return {a + 1 for a in args[0]}
+            if fname == "nest":
+                return {a + 1 for a in args[0]}
+            if fname in ("deep", "shallow"):
+                site = ("ret", node.lineno, node.col_offset)
+                b = ("retb", node.lineno, node.col_offset)
+                c = ("retc", node.lineno, node.col_offset)
+                env[(site, "b")] = {b}
+                if fname == "deep":
+                    env[(b, "c")] = {c}
+                    env[(c, "v")] = set(args[0])
+                else:
+                    env[(b, "v")] = set(args[0])
+                return {site}
+            raise ValueError(fname)
+        raise ValueError(ast.dump(node))
+
+    def run(stmts, env):
+        for s in stmts:
+            if isinstance(s, ast.Assign):
+                val = ev(s.value, env)
+                t = s.targets[0]
+                if isinstance(t, ast.Name):
+                    env[t.id] = val
+                    if t.id in ("x", "y"):
+                        expected.setdefault((s.lineno, t.id), set()).update(v for v in val if isinstance(v, int))
+                else:
+                    objs = ev(t.value, env)
+                    for o in objs:
+                        if len(objs) == 1:
+                            env[(o, t.attr)] = set(val)               # strong update: single allocation per variable
+                        else:
+                            env[(o, t.attr)] = set(env.get((o, t.attr), set())) | val
+            elif isinstance(s, ast.If):
+                e1 = run(s.body, dict(env))
+                e2 = run(s.orelse, dict(env)) if s.orelse else dict(env)
+                env = join(e1, e2)
+            elif isinstance(s, (ast.Expr, ast.Return)):
+                pass
+            else:
+                raise ValueError(ast.dump(s))
+        return env
+    run(fn.body, {})
+    return expected
